@@ -92,6 +92,7 @@ class FnTranslator:
         self.uses_fuel = False
         self.stop_after_while: Optional[List[str]] = None
         self.lv: Dict[str, List[Tuple[str, str]]] = {}      # Python lists of vectors: name -> [(lean name, kind)]
+        self.scalarised: set = set()  # array parameters read as ONE element (every use is elementwise along that axis: checked by construction)
         self.vector_mode = False    # whole-array NumPy statements (elementwise expressions, masked stores, np.select)
 
     # ---------- expressions ----------
@@ -186,6 +187,8 @@ class FnTranslator:
         a, b = self.expr(e.left, env), self.expr(e.right, env)
         op = e.op
         sym = {ast.Add: "+", ast.Sub: "-", ast.Mult: "*", ast.Div: "/"}.get(type(op))
+        if a.kind == "A" and b.kind in ("R", "N", "Z") and isinstance(op, ast.Mult) and self.scalarised:
+            return Val(f"(Arr.scale {a.code} {self.to_real(b).code})", "A")
         # array arithmetic (reducer)
         if a.kind == "A" or b.kind == "A":
             if a.kind == "A" and b.kind == "R" and isinstance(op, ast.Sub):
@@ -199,6 +202,9 @@ class FnTranslator:
             if isinstance(e.right, ast.Constant) and e.right.value == 1 and a.kind == "R":
                 return Val(f"({a.code} - RealLike.ofInt (RealLike.floor {a.code}))", "R")   # Python float % 1 ∈ [0,1)
             raise Unsupported(f"line {e.lineno}: modulo other than `x % 1` on a real")
+        if isinstance(op, ast.Pow) and isinstance(e.right, ast.Constant) and e.right.value == 2 and isinstance(e.right.value, int):
+            a = self.to_real(a)          # NumPy evaluates x ** 2 on float arrays as x * x
+            return Val(f"({a.code} * {a.code})", "R")
         if isinstance(op, ast.Pow):
             a, b = self.to_real(a), self.to_real(b)
             return Val(f"(RealLike.pow {a.code} {b.code})", "R")
@@ -272,6 +278,10 @@ class FnTranslator:
             return Val("RealLike.pi", "R")
         if isinstance(e.value, ast.Name) and e.value.id == "self" and f"self.{e.attr}" in self.sig:
             return Val(e.attr, self.sig[f"self.{e.attr}"])
+        if e.attr == "size" and isinstance(e.value, ast.Name) and e.value.id in self.scalarised:
+            return Val("1", "SZ")            # the length of the broadcast axis: only legal inside np.zeros / np.ones shapes
+        if e.attr == "T" and isinstance(e.value, ast.Name) and env.kinds.get(e.value.id) == "A" and self.scalarised:
+            return Val(e.value.id, "A")      # (taps, shifts).T with the shift axis scalarised: the tap vector itself
         if e.attr in ("shape",):
             b = self.expr(e.value, env)
             if b.kind in ("A", "A2", "IA"):
@@ -550,6 +560,8 @@ class FnTranslator:
             v = self.to_real(self.expr(s.value, env))
             if env.kinds[name] == "A":
                 i = self.expr(tgt.slice, env)
+                if i.kind == "Z":
+                    i = Val(f"(Np.pyIndex {name}.n {i.code})", "N")        # Python index: negative counts from the end
                 if i.kind != "N":
                     raise Unsupported(f"line {s.lineno}: store index kind")
                 code = f"{ind}let {name} : Arr α := Arr.set {name} {i.code} {v.code}\n"
@@ -601,6 +613,20 @@ class FnTranslator:
             return self.launch(s.value, rest, env, ind, final)
         if isinstance(s, ast.Assign) and len(s.targets) == 1 and isinstance(s.targets[0], ast.Name):
             name = s.targets[0].id
+            if self.scalarised and isinstance(s.value, ast.Call) and ast.unparse(s.value.func) in ("np.zeros", "np.ones") and s.value.args:
+                shp = s.value.args[0]
+                fill = "RealLike.ofNat 0" if ast.unparse(s.value.func) == "np.zeros" else "RealLike.ofNat 1"
+                dims = shp.elts if isinstance(shp, ast.Tuple) else [shp]
+                kinds_ = [self.expr(d_, env) for d_ in dims]
+                if [k.kind for k in kinds_[-1:]] == ["SZ"] and len(dims) == 1:
+                    env = env.copy()
+                    env.kinds[name] = "R"
+                    return f"{ind}let {name} : α := ({fill})\n" + self.block(rest, env, ind, final)
+                if len(dims) == 2 and kinds_[1].kind == "SZ" and kinds_[0].kind in ("N", "Z"):
+                    n_ = kinds_[0].code if kinds_[0].kind == "N" else f"(Int.toNat {kinds_[0].code})"
+                    env = env.copy()
+                    env.kinds[name] = "A"
+                    return f"{ind}let {name} : Arr α := ⟨{n_}, fun _ => ({fill})⟩\n" + self.block(rest, env, ind, final)
             alloc = self.allocation(s.value, env)
             if alloc is not None:
                 env = env.copy()
@@ -793,6 +819,14 @@ class FnTranslator:
         fn = ast.unparse(s.iter.func)
         if fn not in ("range", "_prange", "prange"):
             raise Unsupported(f"line {s.lineno}: loop over {fn}")
+        if len(s.iter.args) == 2:
+            # range(a, b): (b - a) iterations (none if b <= a), loop variable a + i  -- the caller binds it
+            a_, b_ = self.expr(s.iter.args[0], env), self.expr(s.iter.args[1], env)
+            if a_.kind not in ("N", "Z") or b_.kind not in ("N", "Z"):
+                raise Unsupported(f"line {s.lineno}: range bounds kind")
+            self.range_start = a_.code
+            return s.target.id, f"(Int.toNat (({b_.code} : Int) - ({a_.code} : Int)))", fn != "range"
+        self.range_start = None
         if len(s.iter.args) != 1:
             raise Unsupported(f"line {s.lineno}: range with start/step")
         n = self.expr(s.iter.args[0], env)
@@ -804,9 +838,11 @@ class FnTranslator:
 
     def for_loop(self, s: ast.For, rest, env: Env, ind: str, final) -> str:
         var, bound, parallel = self.loop_range(s, env)
+        start = getattr(self, "range_start", None)
+        self.range_start = None
         stores = self.stores(s.body)
         inner = env.copy()
-        inner.kinds[var] = "N"
+        inner.kinds[var] = "N" if start is None else "Z"
         assigned = self.assigned_names(s.body)
         for st_ in ast.walk(ast.Module(body=s.body, type_ignores=[])):
             if (isinstance(st_, ast.Call) and isinstance(st_.func, ast.Attribute) and st_.func.attr == "append"
@@ -826,6 +862,8 @@ class FnTranslator:
                 raise Unsupported(f"line {s.lineno}: loop mixes stores into new and existing arrays")
             carried = sorted(set(carried) | set(stored_existing))
             stores = []
+        if stores and start is not None:
+            raise Unsupported(f"line {s.lineno}: map loop over range(a, b)")
         if stores:
             # MAP loop: every store is `arr[var] = e` at top level of the body into a pending array; nothing carried
             tops = [st for st in s.body if isinstance(st, ast.Assign) and isinstance(st.targets[0], ast.Subscript)]
@@ -891,7 +929,10 @@ class FnTranslator:
             return "(" + ", ".join(carried) + ")" if len(carried) > 1 else carried[0]
         body_code = self.block(s.body, inner2, ind + "    ", fin)
         init = "(" + ", ".join(carried) + ")" if len(carried) > 1 else carried[0]
-        out = f"{ind}let {st} : {tys} := forRange {bound} {init} (fun ({var} : Nat) ({st} : {tys}) =>\n"
+        lam = var if start is None else f"{var}__i"
+        out = f"{ind}let {st} : {tys} := forRange {bound} {init} (fun ({lam} : Nat) ({st} : {tys}) =>\n"
+        if start is not None:
+            out += f"{ind}    let {var} : Int := ({start} : Int) + (({lam} : Nat) : Int)\n"
         out += self.unpack(st, carried, ind + "    ")
         out += body_code + ")\n"
         out += self.unpack(st, carried, ind)
@@ -1278,6 +1319,30 @@ def write_if_changed(path: str, text: str) -> bool:
     return True
 
 
+def gen_dsp(repo: str = REPO) -> Tuple[str, List[str]]:
+    """dsp.lagrange_taps for ONE fractional shift: the function is elementwise along the shift axis (every statement combines
+    `shift_fracs` pointwise, stores whole rows `taps[k] = …` or scales the whole table), so the array parameter is read as one
+    element and `taps` as the vector of its 2*halfp taps; `taps.T` is then that vector."""
+    path = os.path.join(repo, "speckit/dsp.py")
+    fns = parse_functions(path)
+    out = HEADER.format(src="speckit/dsp.py", sha=sha_of(path))
+    errors: List[str] = []
+    name = "lagrange_taps"
+    try:
+        if name not in fns:
+            raise Unsupported("function not found")
+        tr = FnTranslator(fns[name], {"shift_fracs": "R", "halfp": "Z", "num_taps": "Z"}, {}, name)
+        tr.scalarised = {"shift_fracs"}
+        text, _ = tr.translate()
+        out += text + "\n"
+    except Unsupported as ex:
+        errors.append(f"{name}: {ex}")
+        msg = str(ex).replace("-/", "- /")
+        out += f"/- UNSUPPORTED {name}: {msg} -/\ndef {name}_UNSUPPORTED : Nat := translation_failed_{name}\n\n"
+    out += "end Gen\n"
+    return out, errors
+
+
 def regenerate(repo: str = REPO) -> Dict[str, List[str]]:
     """regenerate every Gen file from the current source; returns {region: [errors]}"""
     report: Dict[str, List[str]] = {}
@@ -1303,6 +1368,9 @@ def regenerate(repo: str = REPO) -> Dict[str, List[str]]:
     text, errs = gen_ctor(repo)
     write_if_changed(os.path.join(GEN_DIR, "Ctor.lean"), text)
     report["Ctor"] = errs
+    text, errs = gen_dsp(repo)
+    write_if_changed(os.path.join(GEN_DIR, "Dsp.lean"), text)
+    report["Dsp"] = errs
     return report
 
 
